@@ -36,39 +36,33 @@ Proof. intros evs. apply tree_inv_run. exact tree_inv_init. Qed.
 Theorem C13_advertised_truthful_server : forall evs, server_truthful (run init evs).
 Proof. intros evs. apply told_server_run; [exact base_init | exact K_init]. Qed.
 
-(* What every live child was last told is the position derived from the current parent, whenever
-   no handler is suspended, after every event list / schedule in which tree events and resumptions
-   happen while a session exists ... *)
-Theorem C13_advertised_truthful_children_partial : forall evs,
-  along session_present init evs = true -> pend (run init evs) = [] -> children_truthful (run init evs).
-Proof. exact children_told_run. Qed.
-
-(* ... and false without that condition as long as a new session does not re-advertise to the
-   children (finding F27: tree changes while logged out). [session_init_readvertises] is generated
-   from _on_session_initialized. *)
-Theorem C13_advertised_truthful_children_refuted : session_init_readvertises = false ->
-  exists evs, pend (run init evs) = [] /\ ~ children_truthful (run init evs).
-Proof. exact children_told_refuted. Qed.
-
-(* Once _on_session_initialized re-advertises to the children (proposed_fixes/F27.diff) the statement
-   is full: after EVERY event list and schedule, whenever a session exists and no handler is
-   suspended, every live child was last told the current position. *)
-Theorem C13_advertised_truthful_children_when_readvertised : session_init_readvertises = true ->
-  forall evs, pend (run init evs) = [] -> children_truthful_in_session (run init evs).
-Proof. exact children_told_full. Qed.
+(* What every live child was last told is the position derived from the current parent, after
+   EVERY event list and schedule, whenever a session exists and no handler is suspended - also for
+   children admitted, and parents lost or chosen, while logged out: a new session re-advertises to
+   the children ([session_init_readvertises], generated from _on_session_initialized, is true).
+   (Full statement: F27 is repaired.  Without a session nothing can be told: the own name is unknown.) *)
+Theorem C13_advertised_truthful_children : forall evs,
+  pend (run init evs) = [] -> children_truthful_in_session (run init evs).
+Proof. apply children_told_full. reflexivity. Qed.
 
 (* The procedural handlers of the source still have the shape the hand-written machine implements:
    effect lists regenerated from _set_parent, _unset_parent, _on_state_changed(CLOSED), _on_session_initialized,
    _on_session_destroyed, reset, _remove_child; order of the three messages to the server; the parent-search flag;
-   the level sent to the children when the parent is lost; independent queued sends to the children. *)
+   the level sent to the children when the parent is lost; independent queued sends to the children; a new session
+   re-advertises to the children (F27 repair); _add_child reads the advertised values again before the root
+   message (F28 repair; the per-connection write suspension itself is explored by the harness only). *)
 Theorem C13_model_follows_source :
   set_parent_effects = model_set_parent_effects /\ unset_parent_effects = model_unset_parent_effects /\
   closed_handler_effects = model_closed_handler_effects /\ session_init_effects = model_session_init_effects /\
   session_destroyed_effects = model_session_destroyed_effects /\ reset_effects = model_reset_effects /\
   remove_child_effects = model_remove_child_effects /\
   server_advert_order = [AF_level; AF_root; AF_search] /\ unset_children_level = 0 /\
-  (forall b, parent_search_flag b = negb b) /\ children_send_independent = true.
-Proof. exact model_follows_source. Qed.
+  (forall b, parent_search_flag b = negb b) /\ children_send_independent = true /\
+  session_init_readvertises = true /\ add_child_rereads_values = true.
+Proof.
+  destruct model_follows_source as (A1 & A2 & A3 & A4 & A5 & A6 & A7 & A8 & A9 & A10 & A11).
+  repeat split; first [assumption | reflexivity | exact A10].
+Qed.
 
 (* non-vacuity: a parent chosen among two candidates, a child admitted, the parent lost under Hold
    and a new one chosen before Release; then the new parent announces another level; and the two
@@ -86,5 +80,7 @@ Example C13_nonvacuous :
   (* F10 history: the announcing child is disconnected, not made parent *)
   parent (run init f10_witness) = None /\ children (run init f10_witness) = [] /\ conns (run init f10_witness) = [] /\
   (* F11 history: the server is told the new level of the parent + 1 *)
-  told_server (run init f11_witness) = Some (6, 5%nat, false).
+  told_server (run init f11_witness) = Some (6, 5%nat, false) /\
+  (* F27 history: the child admitted while logged out is told the position when the session starts *)
+  lookup_told 1%nat (run init f27_witness) = Some (0, me).
 Proof. vm_compute. repeat split; try reflexivity. - left; reflexivity. - intros []. Qed.
